@@ -2,313 +2,51 @@
 package c09
 
 import (
-	"bytes"
-	"errors"
-	"fmt"
 	"strings"
 	"testing"
 
 	"pgregory.net/rapid"
 
 	"github.com/panjf2000/gnet/v2/pkg/buffer/ring"
+	"github.com/panjf2000/gnet/v2/verifx/ringm"
 	"github.com/panjf2000/gnet/v2/verifx/vio"
 	"github.com/panjf2000/gnet/v2/verifx/vstat"
 )
 
-// machine couples a ring.Buffer with its byte-slice reference model.
-type machine struct {
-	rb    *ring.Buffer
-	model []byte
-	gen   vio.Gen
-	hist  []string
-	// observations for the non-trivial rule
-	wrapped, grew, full bool
-	lastCap             int
-}
-
-func (m *machine) logf(format string, a ...any) { m.hist = append(m.hist, fmt.Sprintf(format, a...)) }
-
-func (m *machine) bounds() []int {
-	c := m.rb.Cap()
-	return []int{m.rb.Available(), c, m.rb.Buffered(), 512, 4096, 1024}
-}
-
-type failer interface {
-	Fatalf(format string, args ...any)
-}
-
-func (m *machine) fail(t failer, key, format string, a ...any) {
-	t.Fatalf("VERIF-KEY:%s %s\nhistory: %s", key, fmt.Sprintf(format, a...), strings.Join(m.hist, "; "))
-}
-
-// invariant: content, counters and flags agree with the model after every step.
-func (m *machine) invariant(t failer) {
-	rb := m.rb
-	if g, w := rb.Buffered(), len(m.model); g != w {
-		m.fail(t, "ring-buffered", "Buffered() = %d, model holds %d bytes", g, w)
+func finish(st *vstat.Stats, m *ringm.Machine) {
+	st.Eval()
+	nt := m.Wrapped || m.Grew || m.Full
+	if nt {
+		st.NonTrivial(vstat.Hash(strings.Join(m.Hist, ";")))
 	}
-	if rb.Buffered()+rb.Available() != rb.Cap() {
-		m.fail(t, "ring-avail", "Buffered %d + Available %d != Cap %d", rb.Buffered(), rb.Available(), rb.Cap())
+	if m.Wrapped {
+		st.Label("wrapped")
 	}
-	if rb.IsEmpty() != (len(m.model) == 0) {
-		m.fail(t, "ring-isempty", "IsEmpty() = %v with %d bytes in the model", rb.IsEmpty(), len(m.model))
+	if m.Grew {
+		st.Label("grew")
 	}
-	if rb.Cap() > 0 && rb.IsFull() != (len(m.model) == rb.Cap()) {
-		m.fail(t, "ring-isfull", "IsFull() = %v with %d bytes, Cap %d", rb.IsFull(), len(m.model), rb.Cap())
+	if m.Full {
+		st.Label("exactly_full")
 	}
-	head, tail := rb.Peek(-1)
-	if got := append(append([]byte(nil), head...), tail...); !bytes.Equal(got, m.model) {
-		m.fail(t, "ring-content", "content differs from the model: have %d bytes, want %d; first difference at %d", len(got), len(m.model), firstDiff(got, m.model))
+	if !nt {
+		st.Label("trivial")
 	}
-	if len(tail) > 0 {
-		m.wrapped = true
-	}
-	if rb.Cap() != m.lastCap {
-		if m.lastCap != 0 || rb.Cap() != 0 {
-			m.grew = m.grew || rb.Cap() > m.lastCap && len(m.hist) > 1
-		}
-		m.lastCap = rb.Cap()
-	}
-	if rb.Cap() > 0 && len(m.model) == rb.Cap() {
-		m.full = true
-	}
-}
-
-func firstDiff(a, b []byte) int {
-	n := len(a)
-	if len(b) < n {
-		n = len(b)
-	}
-	for i := 0; i < n; i++ {
-		if a[i] != b[i] {
-			return i
-		}
-	}
-	return n
-}
-
-var initSizes = []int{0, 1, 2, 3, 4, 8, 16, 64, 1023, 1024, 4095, 4096, 4097, 5000}
-
-func (m *machine) actions(maxSize int) map[string]func(*rapid.T) {
-	size := func(t *rapid.T, label string) int { return vio.Size(t, label, maxSize, m.bounds()...) }
-	return map[string]func(*rapid.T){
-		"": func(t *rapid.T) { m.invariant(t) },
-		"Write": func(t *rapid.T) {
-			n := size(t, "n")
-			data := m.gen.Next(n)
-			str := rapid.Bool().Draw(t, "asString")
-			m.logf("Write(%d)", n)
-			var got int
-			var err error
-			if str {
-				got, err = m.rb.WriteString(string(data))
-			} else {
-				got, err = m.rb.Write(data)
-			}
-			if got != n || err != nil {
-				m.fail(t, "ring-write", "Write of %d bytes returned (%d, %v)", n, got, err)
-			}
-			m.model = append(m.model, data...)
-		},
-		"WriteByte": func(t *rapid.T) {
-			k := rapid.IntRange(1, 3).Draw(t, "times")
-			for i := 0; i < k; i++ {
-				b := m.gen.Next(1)
-				m.logf("WriteByte")
-				if err := m.rb.WriteByte(b[0]); err != nil {
-					m.fail(t, "ring-writebyte", "WriteByte returned %v", err)
-				}
-				m.model = append(m.model, b[0])
-			}
-		},
-		"Read": func(t *rapid.T) {
-			k := size(t, "k")
-			p := make([]byte, k)
-			m.logf("Read(%d)", k)
-			n, err := m.rb.Read(p)
-			want := k
-			if want > len(m.model) {
-				want = len(m.model)
-			}
-			switch {
-			case k == 0:
-				if n != 0 || err != nil {
-					m.fail(t, "ring-read0", "Read(empty slice) = (%d, %v)", n, err)
-				}
-			case len(m.model) == 0:
-				if n != 0 || err == nil {
-					m.fail(t, "ring-read-empty", "Read on an empty buffer = (%d, %v), want (0, error)", n, err)
-				}
-			default:
-				if n != want || err != nil {
-					m.fail(t, "ring-read", "Read(%d) with %d buffered = (%d, %v), want (%d, nil)", k, len(m.model), n, err, want)
-				}
-				if !bytes.Equal(p[:n], m.model[:n]) {
-					m.fail(t, "ring-read-data", "Read(%d) returned wrong bytes (first difference at %d)", k, firstDiff(p[:n], m.model[:n]))
-				}
-			}
-			m.model = m.model[n:]
-		},
-		"ReadByte": func(t *rapid.T) {
-			m.logf("ReadByte")
-			b, err := m.rb.ReadByte()
-			if len(m.model) == 0 {
-				if err == nil {
-					m.fail(t, "ring-readbyte-empty", "ReadByte on an empty buffer returned %d, nil", b)
-				}
-				return
-			}
-			if err != nil || b != m.model[0] {
-				m.fail(t, "ring-readbyte", "ReadByte = (%d, %v), want (%d, nil)", b, err, m.model[0])
-			}
-			m.model = m.model[1:]
-		},
-		"Peek": func(t *rapid.T) {
-			n := size(t, "n")
-			if rapid.IntRange(0, 9).Draw(t, "neg") == 0 {
-				n = -n
-			}
-			m.logf("Peek(%d)", n)
-			head, tail := m.rb.Peek(n)
-			want := len(m.model)
-			if n > 0 && n < want {
-				want = n
-			}
-			got := append(append([]byte(nil), head...), tail...)
-			if !bytes.Equal(got, m.model[:want]) {
-				m.fail(t, "ring-peek", "Peek(%d) with %d buffered returned %d+%d bytes, want the first %d (first difference at %d)", n, len(m.model), len(head), len(tail), want, firstDiff(got, m.model[:want]))
-			}
-		},
-		"Discard": func(t *rapid.T) {
-			n := size(t, "n")
-			if rapid.IntRange(0, 9).Draw(t, "neg") == 0 {
-				n = -n
-			}
-			m.logf("Discard(%d)", n)
-			d, err := m.rb.Discard(n)
-			want := 0
-			if n > 0 {
-				want = n
-				if want > len(m.model) {
-					want = len(m.model)
-				}
-			}
-			if d != want || err != nil {
-				m.fail(t, "ring-discard", "Discard(%d) with %d buffered = (%d, %v), want (%d, nil)", n, len(m.model), d, err, want)
-			}
-			m.model = m.model[want:]
-		},
-		"Bytes": func(t *rapid.T) {
-			m.logf("Bytes")
-			b := m.rb.Bytes()
-			if !bytes.Equal(b, m.model) {
-				m.fail(t, "ring-bytes", "Bytes() returned %d bytes, model holds %d (first difference at %d)", len(b), len(m.model), firstDiff(b, m.model))
-			}
-			// the copy must be independent of the buffer
-			for i := range b {
-				b[i] ^= 0xff
-			}
-		},
-		"ReadFrom": func(t *rapid.T) {
-			r := vio.ReaderScript(t, "reader", &m.gen, maxSize, m.bounds()...)
-			m.logf("ReadFrom(%s)", r)
-			n, err := m.rb.ReadFrom(r)
-			if n != int64(len(r.Got)) {
-				m.fail(t, "ring-readfrom-count", "ReadFrom reported %d bytes, the reader returned %d", n, len(r.Got))
-			}
-			if r.EndsWithError() {
-				if !errors.Is(err, vio.ErrScripted) {
-					m.fail(t, "ring-readfrom-err", "ReadFrom returned %v, the reader failed with %v", err, vio.ErrScripted)
-				}
-			} else if err != nil {
-				m.fail(t, "ring-readfrom-err", "ReadFrom returned %v after a clean EOF", err)
-			}
-			m.model = append(m.model, r.Got...)
-		},
-		"WriteTo": func(t *rapid.T) {
-			w := vio.WriterScript(t, "writer", maxSize, m.bounds()...)
-			m.logf("WriteTo(%s)", w)
-			before := len(m.model)
-			n, err := m.rb.WriteTo(w)
-			if before == 0 {
-				if n != 0 || len(w.Accepted) != 0 {
-					m.fail(t, "ring-writeto-empty", "WriteTo on an empty buffer = (%d, %v), writer got %d bytes", n, err, len(w.Accepted))
-				}
-				return
-			}
-			if n != int64(len(w.Accepted)) {
-				m.fail(t, "ring-writeto-count", "WriteTo reported %d bytes, the writer accepted %d", n, len(w.Accepted))
-			}
-			if len(w.Accepted) > len(m.model) || !bytes.Equal(w.Accepted, m.model[:len(w.Accepted)]) {
-				m.fail(t, "ring-writeto-data", "the writer accepted %d bytes that are not the front of the content", len(w.Accepted))
-			}
-			// every offered chunk is the next unsent part of the content, in order
-			off := 0
-			for i, p := range w.Offered {
-				if off+len(p) > len(m.model) || !bytes.Equal(p, m.model[off:off+len(p)]) {
-					m.fail(t, "ring-writeto-offer", "call %d offered %d bytes that are not content[%d:]", i, len(p), off)
-				}
-				acc := len(p)
-				if i < len(w.Steps) && w.Steps[i].N < acc {
-					acc = w.Steps[i].N
-				}
-				off += acc
-			}
-			if w.Failed {
-				if err == nil {
-					m.fail(t, "ring-writeto-err", "the writer failed or was short but WriteTo returned nil")
-				}
-			} else {
-				if err != nil || int(n) != before {
-					m.fail(t, "ring-writeto-drain", "a fully accepting writer got %d of %d bytes, err %v", n, before, err)
-				}
-			}
-			m.model = m.model[len(w.Accepted):]
-		},
-		"Reset": func(t *rapid.T) {
-			m.logf("Reset")
-			m.rb.Reset()
-			m.model = nil
-		},
-	}
-}
-
-func runMachine(st *vstat.Stats, maxSize int) func(*rapid.T) {
-	return func(t *rapid.T) {
-		init := rapid.SampledFrom(initSizes).Draw(t, "newSize")
-		m := &machine{rb: ring.New(init), gen: vio.Gen{Key: uint64(init)*7919 + 17}}
-		m.lastCap = m.rb.Cap()
-		m.logf("New(%d)", init)
-		defer func() {
-			st.Eval()
-			nt := m.wrapped || m.grew || m.full
-			if nt {
-				st.NonTrivial(vstat.Hash(strings.Join(m.hist, ";")))
-			}
-			if m.wrapped {
-				st.Label("wrapped")
-			}
-			if m.grew {
-				st.Label("grew")
-			}
-			if m.full {
-				st.Label("exactly_full")
-			}
-			if !nt {
-				st.Label("trivial")
-			}
-			if st.WantSample(nt) {
-				st.Sample(nt, strings.Join(m.hist, "; "))
-			}
-		}()
-		t.Repeat(m.actions(maxSize))
+	if st.WantSample(nt) {
+		st.Sample(nt, strings.Join(m.Hist, "; "))
 	}
 }
 
 func TestC09Machine(t *testing.T) {
 	st := vstat.New("C09.machine")
 	defer st.Flush()
-	rapid.Check(t, runMachine(st, 9000))
+	rapid.Check(t, func(t *rapid.T) {
+		init := rapid.SampledFrom(ringm.InitSizes).Draw(t, "newSize")
+		m := &ringm.Machine{RB: ring.New(init), Gen: vio.Gen{Key: uint64(init)*7919 + 17}, Prefix: "ring-"}
+		m.LastCap = m.RB.Cap()
+		m.Logf("New(%d)", init)
+		defer finish(st, m)
+		t.Repeat(m.Actions(9000))
+	})
 }
 
 // Small-capacity variant: sizes stay tiny so that wrap-around, exact fullness
@@ -318,19 +56,10 @@ func TestC09Small(t *testing.T) {
 	defer st.Flush()
 	rapid.Check(t, func(t *rapid.T) {
 		init := rapid.SampledFrom([]int{1, 2, 3, 4, 8}).Draw(t, "newSize")
-		m := &machine{rb: ring.New(init), gen: vio.Gen{Key: 99}}
-		m.lastCap = m.rb.Cap()
-		m.logf("New(%d)", init)
-		defer func() {
-			st.Eval()
-			nt := m.wrapped || m.grew || m.full
-			if nt {
-				st.NonTrivial(vstat.Hash(strings.Join(m.hist, ";")))
-			}
-			if st.WantSample(nt) {
-				st.Sample(nt, strings.Join(m.hist, "; "))
-			}
-		}()
-		t.Repeat(m.actions(12))
+		m := &ringm.Machine{RB: ring.New(init), Gen: vio.Gen{Key: 99}, Prefix: "ring-"}
+		m.LastCap = m.RB.Cap()
+		m.Logf("New(%d)", init)
+		defer finish(st, m)
+		t.Repeat(m.Actions(12))
 	})
 }
